@@ -8,15 +8,25 @@ code elsewhere and are re-registered here so that the C04 check itself fails whe
 from engine.api import Pack, Task
 from contracts import C02_gravity as G
 from contracts import C09_sync as S
+from contracts import C03_kepler as K
 
-P = Pack("C04", sorted(set(G.P.files) | set(S.P.files)), "conservation: shared gravity / synchronisation lemmas")
+P = Pack("C04", sorted(set(G.P.files) | set(S.P.files) | set(K.P.files)), "conservation: shared gravity / synchronisation lemmas")
 PACKS = [P]
-P.assumptions += ["shared with C02: " + a for a in G.P.assumptions] + ["shared with C09: " + a for a in S.P.assumptions]
+P.assumptions += ["shared with C02: " + a for a in G.P.assumptions] + ["shared with C09: " + a for a in S.P.assumptions] + ["shared with C03: " + a for a in K.P.assumptions]
 P.trusted += G.P.trusted
 
 for t in G.P.tasks:
     if t.name in ("basic.onebox", "compensated"):
         P.tasks.append(Task(P, "gravity." + t.name, t.fn, t.func, files=G.P.files, timeout=t.timeout, order=t.order, z3_ms=t.z3_ms, polyid_s=t.polyid_s))
+# hybrid integrators: the two parts of the split force must add up to the full force (otherwise energy is not conserved across
+# an encounter), and the Kepler step of every coordinate system must use the mass parameter that the interaction step
+# complements (otherwise the splitting does not sum to the Hamiltonian)
+for t in G.P.tasks:
+    if t.name.startswith("mercurius.") or t.name.startswith("trace."):
+        P.tasks.append(Task(P, "gravity." + t.name, t.fn, t.func, files=G.P.files, timeout=t.timeout, order=t.order, z3_ms=t.z3_ms, polyid_s=t.polyid_s))
+for t in K.P.tasks:
+    if t.name.startswith("kepler_step.mass."):
+        P.tasks.append(Task(P, "splitting." + t.name, t.fn, t.func, files=t.files or K.P.files, timeout=t.timeout, order=t.order, z3_ms=t.z3_ms, polyid_s=t.polyid_s))
 for t in S.P.tasks:
     if t.name.endswith(".default.c0.c2_0.safe_vs_unsafe") or t.name in ("saba.1.safe_vs_unsafe", "saba.10_6_4.safe_vs_unsafe"):
         P.tasks.append(Task(P, "com_and_sync." + t.name, t.fn, t.func, files=S.P.files, timeout=t.timeout))
